@@ -3,4 +3,5 @@ import PynProps.C02
 import PynProps.C03
 import PynProps.C05
 import PynProps.C06
+import PynProps.C07
 import PynProps.C15
